@@ -268,6 +268,17 @@ OnStdout(r, ev) ==
      \* the assembled program was handed to the data loader and the run ended without a memory image or a diagnostic
      /\ Check(d.phase # "load", "load", <<"the run ended while the data was being loaded: exit status", ev.status>>)
      /\ Check(ev.timeout \/ d.phase = "done", "control", <<"run ended in phase", d.phase, "index", d.idx>>)
+     \* a run that died (exit status other than 0) is still judged on what it printed before it died: that must be the
+     \* beginning of the expected output, and it must be all of it up to the last event; the first chunk that differs or
+     \* is cut short is where it died -- a print statement, a service, a banner -- and the property about that chunk owns
+     \* the verdict (seeded change C15-n: `print mem :16` with DS = FFFFh printed a row and aborted; only `total` saw it)
+     /\ LET died == ~ev.timeout /\ ev.status # 0 /\ ~d.outfree /\ d.why # "unexpected" /\ ~d.charout /\ d.out # << >>
+            dexp == Norm(FlatOut(d.out))
+            dk == FirstDiff(no, dexp)
+        IN Check(~died \/ dk > Len(dexp), "stdout",
+                 [at |-> dk, chunk |-> d.out[ChunkOf(d.out, dk, 1, Len(d.out))].t, died |-> ev.status,
+                  got |-> SubSeq(no, dk, IF Len(no) < dk + 60 THEN Len(no) ELSE dk + 60),
+                  expected |-> SubSeq(dexp, dk, IF Len(dexp) < dk + 60 THEN Len(dexp) ELSE dk + 60)])
      /\ Check(ev.timeout \/ ev.status # 0 \/ okk, "stdout",
               LET k == FirstDiff(no, ne)
                   \* the chunk of the expected stream the first difference falls into
